@@ -408,6 +408,11 @@ func MergeMaps(a, b *YamlMap) *YamlMap {
 		Key:   a.Key,
 		Items: slices.Clone(a.Items),
 	}
+	// Copy every item so that overriding a value below doesn't modify a.
+	for i, item := range dst.Items {
+		cp := *item
+		dst.Items[i] = &cp
+	}
 
 	for _, item := range b.Items {
 		dst.setValue(item)
